@@ -1030,6 +1030,9 @@ class Analyzer:
             for n in names:
                 hs.env[self._k(n)] = self.unknown("try-interrupted")
             hs.ctx = hs.ctx + (("except", unparse(h.type) if h.type is not None else "BaseException"),)
+            if self.trace is not None:
+                # a traced analysis remembers that the protected statements were attempted and failed
+                hs.trace = hs.trace + (("handled", unparse(h.type) if h.type is not None else "BaseException", st.lineno),)
             if h.name:
                 self._new_n += 1
                 hs.env[self._k(h.name)] = ("exc", unparse(h.type) if h.type is not None else "BaseException", self._new_n)
